@@ -53,29 +53,33 @@ impl F {
     #[verifier::external_body]
     pub fn from_i64(x: i64) -> (r: F) ensures r@ == x as real { unimplemented!() }
     #[verifier::external_body]
-    pub fn min(a: F, b: F) -> (r: F) ensures r@ == min_r(a@, b@) { unimplemented!() }
+    pub fn min(self, b: F) -> (r: F) ensures r@ == min_r(self@, b@) { unimplemented!() }
     #[verifier::external_body]
-    pub fn max(a: F, b: F) -> (r: F) ensures r@ == max_r(a@, b@) { unimplemented!() }
+    pub fn max(self, b: F) -> (r: F) ensures r@ == max_r(self@, b@) { unimplemented!() }
     #[verifier::external_body]
-    pub fn exp(a: F) -> (r: F) ensures r@ == exp_r(a@) { unimplemented!() }
+    pub fn exp(self) -> (r: F) ensures r@ == exp_r(self@) { unimplemented!() }
     #[verifier::external_body]
-    pub fn powf(a: F, b: F) -> (r: F) ensures r@ == pow_r(a@, b@) { unimplemented!() }
+    pub fn powf(self, b: F) -> (r: F) ensures r@ == pow_r(self@, b@) { unimplemented!() }
     #[verifier::external_body]
-    pub fn abs(a: F) -> (r: F) ensures r@ == abs_r(a@) { unimplemented!() }
+    pub fn abs(self) -> (r: F) ensures r@ == abs_r(self@) { unimplemented!() }
     #[verifier::external_body]
-    pub fn sin(a: F) -> (r: F) ensures r@ == sin_r(a@) { unimplemented!() }
+    pub fn sin(self) -> (r: F) ensures r@ == sin_r(self@) { unimplemented!() }
     #[verifier::external_body]
-    pub fn cos(a: F) -> (r: F) ensures r@ == cos_r(a@) { unimplemented!() }
+    pub fn cos(self) -> (r: F) ensures r@ == cos_r(self@) { unimplemented!() }
     #[verifier::external_body]
-    pub fn sqrt(a: F) -> (r: F) ensures r@ == sqrt_r(a@) { unimplemented!() }
+    pub fn sqrt(self) -> (r: F) ensures r@ == sqrt_r(self@) { unimplemented!() }
     #[verifier::external_body]
-    pub fn acos(a: F) -> (r: F) ensures r@ == acos_r(a@) { unimplemented!() }
+    pub fn acos(self) -> (r: F) ensures r@ == acos_r(self@) { unimplemented!() }
     #[verifier::external_body]
     pub fn powi(self, n: i32) -> (r: F) ensures r@ == powi_r(self@, n as int) { unimplemented!() }
+    /// `x.ceil() as i64` (saturation of the cast is dropped: |x| < 2^63 assumed)
+    #[verifier::external_body]
+    pub fn ceil_i64(x: F) -> (r: i64) ensures (r as real) >= x@, (r as real) - 1real < x@ { unimplemented!() }
+    /// `x.floor() as i64`
+    #[verifier::external_body]
+    pub fn floor_i64(x: F) -> (r: i64) ensures (r as real) <= x@, (r as real) + 1real > x@ { unimplemented!() }
     #[verifier::external_body]
     pub fn to_radians(self) -> (r: F) ensures r@ == self@ * pi_r() / 180real { unimplemented!() }
-    #[verifier::external_body]
-    pub fn rem(self, rhs: F) -> (r: F) ensures r@ == fmod_r(self@, rhs@) { unimplemented!() }
 }
 
 impl vstd::std_specs::ops::AddSpecImpl<F> for F {
@@ -143,3 +147,28 @@ impl PartialOrd<F> for F {
 pub fn vpanic<T>() -> (r: T) requires false { unimplemented!() }
 /// `assert!(c)` in the source: c is a proof obligation
 pub fn vassert(c: bool) requires c {}
+impl vstd::std_specs::ops::RemSpecImpl<F> for F {
+    open spec fn obeys_rem_spec() -> bool { false }
+    open spec fn rem_req(self, rhs: F) -> bool { true }
+    open spec fn rem_spec(self, rhs: F) -> F { arbitrary() }
+}
+impl std::ops::Rem<F> for F { type Output = F;
+    #[verifier::external_body]
+    fn rem(self, rhs: F) -> (r: F) ensures r@ == fmod_r(self@, rhs@) { unimplemented!() } }
+/// Rust's f64 `%` is C fmod: x = k*y + fmod(x,y) with integer k, result has the sign of x and |result| < y
+pub axiom fn ax_fmod(x: real, y: real)
+    requires y > 0real
+    ensures exists|k: int| #[trigger] fmod_k(x, y, k),
+        x >= 0real ==> 0real <= fmod_r(x, y) < y,
+        x <= 0real ==> -y < fmod_r(x, y) <= 0real;
+pub open spec fn fmod_k(x: real, y: real, k: int) -> bool { x == (k as real) * y + fmod_r(x, y) }
+
+// `vec![..]` (rule R19)
+#[verifier::external_body]
+pub fn vvec1<T>(a: T) -> (r: Vec<T>) ensures r@ =~= seq![a] { unimplemented!() }
+#[verifier::external_body]
+pub fn vvec2<T>(a: T, b: T) -> (r: Vec<T>) ensures r@ =~= seq![a, b] { unimplemented!() }
+#[verifier::external_body]
+pub fn vvec3<T>(a: T, b: T, c: T) -> (r: Vec<T>) ensures r@ =~= seq![a, b, c] { unimplemented!() }
+#[verifier::external_body]
+pub fn vvec4<T>(a: T, b: T, c: T, d: T) -> (r: Vec<T>) ensures r@ =~= seq![a, b, c, d] { unimplemented!() }
